@@ -5,6 +5,7 @@ import Mathlib.Tactic.Linarith
 import Mathlib.Tactic.NormNum
 import Mathlib.Data.Rat.Defs
 import Mathlib.Algebra.Order.Field.Rat
+import AtsimModel.Lemmas.KernelQ
 /-!
 # C01 — LAMMPS pair table: rows, header and force column are faithful to the model
 
@@ -144,4 +145,23 @@ example : (lammpsTable [⟨"A", "B", 1⟩] (2 : Rat) 5).map (fun b => (b.N, b.lo
     totalised division gives `r = dr`, not a grid: the hypothesis `3 ≤ nr` is exactly the property's. -/
 example : rowR (pairDr 2 2) 2 (2 - 1) 1 = 2 := by decide +kernel
 
+end Atsim.C01
+
+/-! ## kernel ties: the arithmetic the code uses at these places, regenerated from the source on every run, is the model's -/
+namespace Atsim.C01
+open Atsim.Gen Atsim.E
+set_option linter.unusedTactic false
+set_option linter.unusedSimpArgs false
+theorem C01_kernel_dr (cut : Rat) (nr : Nat) : evalQ (envQ [cut, nr]) k_pair_dr = pairDr cut nr := by
+  kernel_unfold [k_pair_dr, pairDr]
+  kernel_close
+theorem C01_kernel_row (minr maxr : Rat) (N n : Nat) : evalQ (envQ [minr, maxr, N, n]) k_lammps_row_r = rowR minr maxr N n := by
+  kernel_unfold [k_lammps_row_r, rowR]
+  kernel_close
+/-- `LAMMPS_PairTabulation.write` calls the writer with (minr, maxr, gridPoints) = (dr, cutoff, nr - 1) -/
+theorem C01_kernel_args (cut : Rat) (nr : Nat) (h : 1 ≤ nr) :
+    k_lammps_args.map (evalQ (envQ [cut, nr, pairDr cut nr])) = [pairDr cut nr, cut, ((nr - 1 : Nat) : Rat)] := by
+  kernel_unfold [k_lammps_args]
+  push_cast [Nat.cast_sub h]
+  kernel_close
 end Atsim.C01
